@@ -70,6 +70,9 @@ RULE = (
     "Non-trivial = the history contains a merge or a step that removes subsystems from a product space, after "
     "which further steps ran; distinct = hash of (layout, step kinds and sites)."
 )
+from pw_verif.props._machine import HISTORY_NOTE, SURVIVOR_NOTE  # noqa: E402,F401
+
+RULE += SURVIVOR_NOTE + HISTORY_NOTE
 ASSUMPTIONS = ["reference self-tests passed", "class-level registries are cleared at the start of every case (emulating a fresh process)",
                "independence of unrelated composite envelopes is covered by the bystander rule of C20 (blocks without addressed members must be bit-identical)"]
 
